@@ -117,3 +117,23 @@ def conjuncts(test):
             out += conjuncts(v)
         return out
     return [test]
+
+
+def control_equivalent_in_loop(cfg, loop_stmt, a_nodes, b_nodes):
+    """Within one iteration of the loop (paths that stay inside it and do not take the back edge) a node of
+    A is passed iff a node of B is passed.  Returns (ok, witness)."""
+    h = cfg.node(loop_stmt)
+    out = outside_loop(cfg, loop_stmt)
+    A, B = set(a_nodes), set(b_nodes)
+    if not A or not B:
+        return False, ['one side of the pair is missing in the loop']
+    for X, Y, tx, ty in ((A, B, 'first', 'second'), (B, A, 'second', 'first')):
+        for x in X:
+            if x in Y:
+                continue
+            pre = path_avoiding(cfg, body_entries(cfg, loop_stmt), [x], Y | out | {h})
+            post = path_avoiding(cfg, [x], [h], Y | out) if x != h else None
+            # x reachable in an iteration without Y before it, and the iteration can finish without Y after it
+            if pre is not None and post is not None:
+                return False, [f'an iteration passes the {tx} but not the {ty}:'] + cfg.describe_path(pre) + cfg.describe_path(post[1:])
+    return True, None
